@@ -82,6 +82,8 @@ type J2KEnc struct {
 	Binding   bool    `json:"binding,omitempty"`   // Part 2 MCT binding with offsets (2+ components)
 	BindOff   []int32 `json:"bindoff,omitempty"`   // offsets for the binding
 	CustomMCT bool    `json:"custommct,omitempty"` // custom matrix via MCTMatrix
+	PrecW     int     `json:"precw,omitempty"`     // custom precinct partition (power of two)
+	PrecH     int     `json:"prech,omitempty"`
 }
 
 // J2KDec configures a long-lived jpeg2000.Decoder object.
